@@ -17,6 +17,7 @@ Verdict(e) ==
  \cup (IF acc \/ e.outcome \in Contract THEN {} ELSE {"error_contract"})
  \cup (IF ~tk.ok /\ ~acc /\ e.outcome # "ValueError" THEN {"unsupported_char_not_valueerror"} ELSE {})
  \cup (IF e.rep.outcome = e.outcome /\ e.rep.same THEN {} ELSE {"repeat_differs"})
+ \cup (IF e.shared_same THEN {} ELSE {"long_lived_parser_differs"})
  \cup (IF acc THEN WFExprFailing(e.h, e.root) ELSE {})
  \cup (IF acc /\ ~KnownKinds(e.term) THEN {"result_not_expression"} ELSE
        IF acc /\ ref.ok THEN
